@@ -29,8 +29,9 @@ static const char* kTypeNames[] = {"i32", "iptr", "u8", "i16", "f64", "f32", "u3
 static const int kNumTypes = 10;
 
 struct Case { int conv; std::vector<int> types; std::vector<int> dst; int extra_stack_args;   // dst: 0 own, 1..n incoming of arg (k-1), n+1 foreign A, n+2 foreign B, n+3 stack
+  int fmid = 0; // number of f64 arguments inserted after the first shuffled argument: they use up the vector argument registers, so later float arguments arrive on the stack while the first one sits in a register
   int fv = 0;   // frame variant: 0 plain, 1 local stack aligned to 32 (dynamic alignment, stack arguments reached through the SA register), 2 the same with a preserved frame pointer
-  std::string str() const { std::string s = "conv=" + std::to_string(conv) + " pad=" + std::to_string(extra_stack_args) + " fv=" + std::to_string(fv) + " types="; for (int t : types) s += std::to_string(t) + ","; s += " dst="; for (int d : dst) s += std::to_string(d) + ","; s += " #"; for (size_t i = 0; i < types.size(); i++) s += std::string(" ") + kTypeNames[types[i]] + "->" + std::to_string(dst[i]); return s; } };
+  std::string str() const { std::string s = "conv=" + std::to_string(conv) + " pad=" + std::to_string(extra_stack_args) + " fv=" + std::to_string(fv) + (fmid ? " fmid=" + std::to_string(fmid) : std::string()) + " types="; for (int t : types) s += std::to_string(t) + ","; s += " dst="; for (int d : dst) s += std::to_string(d) + ","; s += " #"; for (size_t i = 0; i < types.size(); i++) s += std::string(" ") + kTypeNames[types[i]] + "->" + std::to_string(dst[i]); return s; } };
 
 static std::string g_why, g_clause;
 #define FAIL(cl, ...) do { char _b[600]; snprintf(_b, sizeof _b, __VA_ARGS__); g_why = _b; g_clause = cl; return 0; } while (0)
@@ -39,11 +40,15 @@ static bool is_float(int t) { return t == 4 || t == 5; }
 static unsigned type_bytes(int t, int arch) { switch (t) { case 0: return 4; case 1: return arch == AX86 ? 4 : 8; case 2: return 1; case 3: return 2; case 4: return 8; case 5: return 4; case 6: return 4; case 7: return 2; case 8: return 4; default: return 1; } }
 static unsigned widen_bytes(int t) { return t == 9 ? 4 : (t >= 6 ? 8 : 0); }
 static bool widen_signed(int t) { return t == 7 || t == 8; }
-static uint64_t token(size_t i) { return 0xA1B2C3D4E5F60718ull * (i + 1) ^ (0x1111111111111111ull * (i + 3)); }
+// every case is interpreted twice, with a token set and its bitwise complement: each argument is then seen with both values of
+// every bit, in particular of the sign bit of every narrow type
+static bool g_inv = false;
+static uint64_t token(size_t i) { uint64_t t = 0xA1B2C3D4E5F60718ull * (i + 1) ^ (0x1111111111111111ull * (i + 3)); return g_inv ? ~t : t; }
 
 // returns 1 ok, 0 violation (g_why set), 2 skipped (invalid combination), 3 undecided
 static int run_case(const Case& cs) {
   vh::Ctx& c = vh::ctx();
+  g_inv = false;
   Conv cv = convs()[cs.conv];
   size_t n = cs.types.size();
   vh::set_case("harness=c06_args\n" + cs.str() + "\n");
@@ -53,13 +58,14 @@ static int run_case(const Case& cs) {
   // optional leading pointer arguments push the interesting ones (partly) onto the stack
   for (int t : cs.types) if (widen_bytes(t) == 8 && cv.arch == AX86) return 2;
   for (int i = 0; i < cs.extra_stack_args; i++) sig.add_arg(TypeId::kIntPtr);
-  for (int t : cs.types) sig.add_arg(kTypes[t]);
+  for (size_t i = 0; i < cs.types.size(); i++) { sig.add_arg(kTypes[cs.types[i]]); if (i == 0) for (int k = 0; k < cs.fmid; k++) sig.add_arg(TypeId::kFloat64); }
   FuncDetail func;
   if (func.init(sig, env) != Error::kOk) return 2;
   FuncFrame frame;
   if (frame.init(func) != Error::kOk) FAIL("frame-init", "FuncFrame::init failed");
   bool is_x86 = cv.arch != AA64;
   size_t first = cs.extra_stack_args;
+  auto ai = [&](size_t i) { return first + i + (i > 0 ? size_t(cs.fmid) : 0); };   // index of shuffled argument i in the signature
   // foreign registers: not used for passing any argument of this signature
   uint32_t used_gp = 0, used_vec = 0;
   for (size_t i = 0; i < func.arg_count(); i++) { const FuncValue& v = func.arg(i); if (v.is_reg()) { if (v.reg_type() >= RegType::kVec32 && v.reg_type() <= RegType::kVec512) used_vec |= 1u << v.reg_id(); else used_gp |= 1u << v.reg_id(); } }
@@ -77,10 +83,10 @@ static int run_case(const Case& cs) {
     bool fl = is_float(cs.types[i]);
     int d = cs.dst[i];
     Dst ds{true, fl, 0, 0};
-    const FuncValue& own = func.arg(first + i);
+    const FuncValue& own = func.arg(ai(i));
     auto incoming_reg = [&](const FuncValue& v, uint32_t& id) { if (!v.is_reg()) return false; bool vv = v.reg_type() >= RegType::kVec32 && v.reg_type() <= RegType::kVec512; if (vv != fl) return false; id = v.reg_id(); return true; };
     if (d == 0) { if (!incoming_reg(own, ds.id)) { ds.is_reg = true; ds.id = fl ? foreign_vec[0] : foreign_gp[0]; /* stack argument with 'own' destination: load into foreign A */ } }
-    else if (d >= 1 && d <= (int)n) { if (d - 1 == (int)i) return 2; if (!incoming_reg(func.arg(first + d - 1), ds.id)) return 2; }
+    else if (d >= 1 && d <= (int)n) { if (d - 1 == (int)i) return 2; if (!incoming_reg(func.arg(ai(size_t(d - 1))), ds.id)) return 2; }
     else if (d == (int)n + 1) ds.id = fl ? foreign_vec[0] : foreign_gp[0];
     else if (d == (int)n + 2) ds.id = fl ? foreign_vec.back() : foreign_gp.back();
     else { ds.is_reg = false; ds.off = 8 * stack_slot++; }
@@ -89,15 +95,15 @@ static int run_case(const Case& cs) {
     unsigned tb = type_bytes(cs.types[i], cv.arch);
     // destination types as the Compiler would pass them: concrete integer type of the argument; x86 scalar floats live in
     // vector-typed virtual registers (new_xmm_ss/sd = kFloat32x1/kFloat64x1), AArch64 uses the scalar float types (new_vec_s/d)
-    TypeId dst_type = func.arg(first + i).type_id();
+    TypeId dst_type = func.arg(ai(i)).type_id();
     if (fl && is_x86) dst_type = tb == 8 ? TypeId::kFloat64x1 : TypeId::kFloat32x1;
     if (widen_bytes(cs.types[i])) { dst_type = kWiden[cs.types[i]]; tb = widen_bytes(cs.types[i]); }
     if (ds.is_reg) {
       Reg r;
       if (is_x86) r = fl ? Reg(x86::xmm(ds.id)) : (tb == 8 ? Reg(x86::gpq(ds.id)) : Reg(x86::gpd(ds.id)));
       else r = fl ? (tb == 8 ? Reg(a64::d(ds.id)) : Reg(a64::s(ds.id))) : (tb == 8 ? Reg(a64::x(ds.id)) : Reg(a64::w(ds.id)));
-      args.assign_reg(first + i, r, dst_type);
-    } else args.assign_stack(first + i, ds.off, dst_type);
+      args.assign_reg(ai(i), r, dst_type);
+    } else args.assign_stack(ai(i), ds.off, dst_type);
   }
   frame.set_call_stack_size(64);   // stack destinations live in [sp, sp+64)
   if (cs.fv) { frame.set_local_stack_size(32); frame.set_local_stack_alignment(32); if (cs.fv == 2) frame.set_preserved_fp(); }
@@ -117,10 +123,11 @@ static int run_case(const Case& cs) {
   std::vector<BaseNode*> nodes; for (BaseNode* nd = b->first_node(); nd; nd = nd->next()) nodes.push_back(nd);
   x86::Assembler xa2; a64::Assembler aa2;
   if (ef == Error::kOk) { BaseAssembler* as2 = is_x86 ? (BaseAssembler*)&xa2 : (BaseAssembler*)&aa2; code.attach(as2); ef = b->serialize_to(as2); }
+  if (c.replaying()) fprintf(stderr, "bytes: %s\n", vh::hex(code.text_section()->data(), code.text_section()->buffer_size()).c_str());
   if (ef != Error::kOk) {
     // a stack-to-stack move needs a scratch register that the assignment itself may not provide: a *reported* refusal is acceptable there
     bool stack_to_stack = false;
-    for (size_t i = 0; i < n; i++) if (!dsts[i].is_reg && func.arg(first + i).is_stack()) stack_to_stack = true;
+    for (size_t i = 0; i < n; i++) if (!dsts[i].is_reg && func.arg(ai(i)).is_stack()) stack_to_stack = true;
     if (stack_to_stack) { c.n("refused_stack_to_stack")++; return 1; }
     FAIL("emit-args", "%s failed with error %u for an assignment without stack-to-stack moves", ea != Error::kOk ? "emit_args_assignment" : "assembling the emitted moves", unsigned(ef));
   }
@@ -128,7 +135,9 @@ static int run_case(const Case& cs) {
   BaseNode* last = b->cursor();
   if (!last) return 1;   // nothing to do and nothing emitted (all 'own')
 
-  msim::Machine m; m.a64 = !is_x86; m.is64 = cv.arch != AX86;
+  for (int inv = 0; inv < 2; inv++) {
+  g_inv = inv != 0;
+  msim::Machine m; m.a64 = !is_x86; m.is64 = cv.arch != AX86; m.encoder_reg_ids = true;
   unsigned rs = m.regsize();
   uint64_t S0 = 0x7FFF0000ull - (is_x86 ? rs : 0);
   for (uint32_t i = 0; i < 32; i++) { m.gp[i] = 0x5A5A000000000000ull + i * 0x0101; for (int l = 0; l < 8; l++) { uint64_t t = 0x6B6B000000000000ull + i * 0x0101 + l; memcpy(m.vec[i] + 8 * l, &t, 8); } }
@@ -145,6 +154,7 @@ static int run_case(const Case& cs) {
   if (!m.is64) for (int i = 0; i < 8; i++) m.gp[i] &= 0xFFFFFFFFull;
   BaseNode* resume = nullptr;
   if (!msim::run(m, b->first_node(), b->first_node(), last, &resume)) FAIL("hang", "argument assignment did not terminate");
+  if (m.ill_typed_scalar_moves) c.n("ill_typed_scalar_moves") += m.ill_typed_scalar_moves;
   if (!m.unsupported.empty()) { c.n("undecided")++; c.note("undecided: " + m.unsupported); return 3; }
   if (!m.fault.empty()) FAIL("fault", "%s", m.fault.c_str());
   // a destination that is the register holding the stack-argument base (dynamic alignment without frame pointer) is reached
@@ -152,7 +162,7 @@ static int run_case(const Case& cs) {
   auto sa_swap = [&](size_t i) { return cs.fv == 1 && dsts[i].is_reg && !dsts[i].vec && frame.has_dynamic_alignment() && dsts[i].id == frame.sa_reg_id(); };
   for (size_t i = 0; i < n; i++) {
     unsigned tb = type_bytes(cs.types[i], cv.arch);
-    uint64_t want = token(first + i) & msim::mask_n(tb), got;
+    uint64_t want = token(ai(i)) & msim::mask_n(tb), got;
     if (widen_bytes(cs.types[i])) {   // the destination type is wider: the value must be extended as the argument's type requires
       unsigned wb = widen_bytes(cs.types[i]);
       want = (widen_signed(cs.types[i]) ? uint64_t(msim::sext_n(want, tb)) : want) & msim::mask_n(wb);
@@ -164,6 +174,8 @@ static int run_case(const Case& cs) {
       FAIL(widen_bytes(cs.types[i]) ? (!dsts[i].is_reg ? "wrong-value:widen:stack" : cs.dst[i] == 0 ? "wrong-value:widen:reg:self" : (cs.dst[i] <= (int)n || sa_swap(i)) ? "wrong-value:widen:reg:cycle" : "wrong-value:widen:reg:move") : "wrong-value", "argument %zu (%s) destination %s%u holds %llx, expected low %u bytes %llx", i, kTypeNames[cs.types[i]], dsts[i].is_reg ? (dsts[i].vec ? "vec" : "gp") : "stack+", dsts[i].is_reg ? dsts[i].id : unsigned(dsts[i].off), (unsigned long long)got, tb, (unsigned long long)want);
   }
   c.outcomes.insert(std::string(cv.name) + ":" + std::to_string(m.steps > 12 ? 12 : m.steps));
+  }
+  g_inv = false;
   return 1;
 }
 
@@ -178,7 +190,8 @@ int main(int argc, char** argv) {
   if (c.replaying()) {
     for (auto& line : vh::split(c.replay_text, '\n')) if (line.rfind("conv=", 0) == 0) {
       Case cs; char ts[128] = {0}, ds[128] = {0};
-      if (line.find(" fv=") != std::string::npos) sscanf(line.c_str(), "conv=%d pad=%d fv=%d types=%127s dst=%127s", &cs.conv, &cs.extra_stack_args, &cs.fv, ts, ds);
+      if (line.find(" fmid=") != std::string::npos) sscanf(line.c_str(), "conv=%d pad=%d fv=%d fmid=%d types=%127s dst=%127s", &cs.conv, &cs.extra_stack_args, &cs.fv, &cs.fmid, ts, ds);
+      else if (line.find(" fv=") != std::string::npos) sscanf(line.c_str(), "conv=%d pad=%d fv=%d types=%127s dst=%127s", &cs.conv, &cs.extra_stack_args, &cs.fv, ts, ds);
       else sscanf(line.c_str(), "conv=%d pad=%d types=%127s dst=%127s", &cs.conv, &cs.extra_stack_args, ts, ds);
       for (auto& x : vh::split(ts, ',')) if (!x.empty()) cs.types.push_back(atoi(x.c_str()));
       for (auto& x : vh::split(ds, ',')) if (!x.empty()) cs.dst.push_back(atoi(x.c_str()));
@@ -190,7 +203,8 @@ int main(int argc, char** argv) {
   long long idx = 0;
   std::vector<Conv> cvs = convs();
   for (size_t ci = 0; ci < cvs.size(); ci++) for (int pad : {0, cvs[ci].arch == AX86 ? 2 : cvs[ci].arch == AX64 ? 5 : 7})
-      for (int fv = 0; fv < (cvs[ci].arch == AA64 ? 1 : 3); fv++) for (int n = 1; n <= maxn; n++) {
+      for (int fv = 0; fv < (cvs[ci].arch == AA64 ? 1 : 3); fv++) for (int fmid : {0, cvs[ci].arch == AX86 ? -1 : 7}) for (int n = 1; n <= maxn; n++) {
+    if (fmid < 0 || (fmid && (pad || fv || n < 2 || n > 3))) continue;   // vector-register-exhausting variant: plain frame, two or three shuffled arguments
     if (fv && n > 3) continue;   // frame variants: up to three shuffled arguments
     int ntypes = (n >= 4) ? 4 : (n == 3 ? 7 : kNumTypes);
     std::vector<int> types(n, 0), dst(n, 0);
@@ -200,7 +214,7 @@ int main(int argc, char** argv) {
       if (i == n) {
         if (!c.mine(idx++)) return;
         if (c.tick(256)) return;
-        Case cs{(int)ci, types, dst, pad}; cs.fv = fv;
+        Case cs{(int)ci, types, dst, pad}; cs.fv = fv; cs.fmid = fmid;
         int r = run_case(cs);
         if (r == 0) report(cs); else if (r == 1) c.sample(std::string(cvs[ci].name) + " " + cs.str(), 6); else if (r == 2) c.n("skipped_invalid")++;
         return;
